@@ -1,18 +1,32 @@
 #!/usr/bin/env python3
-"""Prints the seeded-change matrix (markdown) from /verif/seeded/*/meta.json."""
-import glob, json, os, re
+"""Prints the seeded-change matrix (markdown) from /verif/seeded/*/meta.json and seeded/SUMMARIES.json.
+
+  lib/seedmatrix.py [r1|r2|r3]     (default: all rounds)
+"""
+import glob, json, os, re, sys
+summ = json.load(open("/verif/seeded/SUMMARIES.json"))
+want = sys.argv[1] if len(sys.argv) > 1 else None
+
+
+def round_of(name):
+    m = re.search(r"-r(\d)$", name)
+    return "r" + m.group(1) if m else "r1"
+
+
 rows = []
 for mp in sorted(glob.glob("/verif/seeded/*/meta.json")):
     m = json.load(open(mp))
     name = os.path.basename(os.path.dirname(mp))
+    if want and round_of(name) != want:
+        continue
     res = m.get("check_results", {})
     best = []
     for k, v in sorted(res.items()):
-        st = v.split()[0]
-        best.append("%s: %s" % (k, st))
-    notes = m.get("summary") or m.get("needs_to_manifest", "")[:160]
-    rows.append((name, m.get("summary", ""), "; ".join(best)))
-print("| Seeded change | What it breaks / what it needs | Result of the checks (final state of the machinery) |")
+        st = v.split()[0] if v.split() else "?"
+        test = re.search(r"Test\w+|Fuzz\w+", v)
+        best.append("%s: %s%s" % (k, st.lower(), " (" + test.group(0) + ")" if test and st == "DETECTED" else ""))
+    rows.append((name, summ.get(name, m.get("needs_to_manifest", "")[:160]).replace("|", "/"), "; ".join(best)))
+print("| Seeded change | What it breaks / what it needs | Checks run against it (final state of the machinery) |")
 print("|---|---|---|")
 for r in rows:
     print("| %s | %s | %s |" % r)
